@@ -208,6 +208,7 @@ func (c *conn) send(ctx context.Context, msg *kmip.RequestMessage) error {
 		return err
 	}
 	tx := c.tx.Load().(chan txMsg)
+	verifYield("cli.send.loaded")
 	errCh := make(chan error)
 	select {
 	case tx <- txMsg{msg: msg, err: errCh}:
@@ -271,5 +272,6 @@ func (c *conn) roundtrip(ctx context.Context, msg *kmip.RequestMessage) (*kmip.R
 	if err := c.send(ctx, msg); err != nil {
 		return nil, err
 	}
+	verifYield("cli.roundtrip.sent")
 	return c.recv(ctx)
 }
